@@ -1,8 +1,19 @@
 """Single source of truth for MANIFEST.json (written by bin/mkmanifest)."""
 
-HOOK_COMMITS = []   # filled as hook commits are made in /repo
+HOOK_COMMITS = ["af6de69"]   # filled as hook commits are made in /repo
 
 CHECKS = {
+    "C18": dict(
+        category="model_checking",
+        text=("Transport.tla: the consumers' I/O logic (npy reader loop, create-input detection + decoding, writer) against an "
+              "environment that owns chunk schedule and failure offset; TLC checks schedule-independence and that failures "
+              "surface, on models carrying the real file lengths; every schedule is replayed with scheduled readers/writers on "
+              "Array::read_npy, the genotype reader (hook) and the spectrum writer."),
+        design_ref="DESIGN.md section 3 (C18)",
+        note=("First-chunk length exhaustive per file (quick: up to 120), later chunks in {1,2,7,64,rest}, failure at every offset "
+              "for three schedules. Needs hook build_from_bufread (cfg sfs_verif). Trusted: TLC, SchedReader/SchedWriter."),
+        technique="TLA+ consumer/environment machine over chunk schedules and fault offsets, TLC exhaustive, schedule replay on the implementation",
+    ),
     "C07": dict(
         category="model_checking",
         text=("ToolChain.tla: all producer -> transformer* -> consumer chains over formats, precisions and transports with the "
